@@ -486,6 +486,38 @@ def _field_ptr(E, st, ptr, i):
     return E.extend(st, ptr, i)
 
 
+def _range_aux(E, st, start, end):
+    """a counted loop `start..end` whose bound is a container's len: keep `end - start` and `len - i` (for the
+    integer locals i that start out equal to `start`) as auxiliary difference terms (see slots.note_shift)"""
+    z = st.zone
+    if isinstance(end, int):
+        return
+    if isinstance(start, int):
+        return
+    if z.entails_eq(start, 0):
+        slots.aux_make(st, end, start)
+        for mid, ms in st.maps.items():
+            if ms.dead or ms.phantom or not z.entails_eq(end, ms.len):
+                continue
+            for fr in st.frames.values():
+                for l in list(fr):
+                    v = fr[l]
+                    if not (isinstance(v, tuple) and len(v) == 2 and v[0] == 'int'):
+                        continue
+                    if v[1] == 0 and isinstance(v[1], int) and isinstance(l, int) and l > 0:
+                        # a local that holds the constant 0 (a cursor about to be advanced): the same value as
+                        # a term, so that len - cursor can be carried along
+                        t0 = fresh('c')
+                        z.add_eq(t0, 0)
+                        fr[l] = ('int', t0)
+                        v = fr[l]
+                    if isinstance(v[1], Term) and v[1] is not start and v[1] is not end and z.entails_eq(v[1], 0):
+                        slots.aux_make(st, ms.len, v[1])
+    d = slots.aux_get(st, end, start)
+    if d is not None:
+        z.add_lt(0, d)      # start < end was just assumed
+
+
 def ad_range_next(E, st, ptr, v, fid, item_ty=None):
     a, b = v[3]
     if a[0] != 'int' or b[0] != 'int':
@@ -494,7 +526,15 @@ def ad_range_next(E, st, ptr, v, fid, item_ty=None):
     s1 = st.fork()
     s1.zone.add_lt(a[1], b[1])
     if s1.zone.sat:
-        n = slots.plus(s1, a[1], 1)
+        a1 = a[1]
+        if a1 == 0 and isinstance(b[1], Term) and any(
+                not ms.dead and not ms.phantom and s1.zone.entails_eq(b[1], ms.len) for ms in s1.maps.values()):
+            # `0..len`: give the start a term so that its auxiliary difference can be shifted along
+            a1 = fresh('s')
+            s1.zone.add_eq(a1, 0)
+        if isinstance(a1, Term):
+            _range_aux(E, s1, a1, b[1])
+        n = slots.plus(s1, a1, 1)
         E.store(s1, ptr, ('adt', RANGE, 0, (I(n), b)))
         out.append(('ret', s1, some(a)))
     st.zone.add_le(b[1], a[1])
